@@ -72,6 +72,37 @@ def run_one(m, tier="quick"):
         shutil.rmtree(root, ignore_errors=True)
 
 
+def seeded():
+    """The independently seeded changes kept under /verif/seeded/<id>/ (patch.diff + meta.json)."""
+    import json
+    root = os.path.join(common.VERIF, "seeded")
+    out = []
+    for d in sorted(os.listdir(root)) if os.path.isdir(root) else []:
+        pf = os.path.join(root, d, "patch.diff")
+        mf = os.path.join(root, d, "meta.json")
+        if os.path.exists(pf) and os.path.exists(mf):
+            meta = json.load(open(mf))
+            out.append((d, meta.get("property", d.split("-")[0]), pf))
+    return out
+
+
+def run_seeded(sid, prop, patchfile, tier="quick"):
+    root = tempfile.mkdtemp(prefix="vx-seed-")
+    try:
+        shutil.copytree(os.path.join(common.REPO, "xyzpy"), os.path.join(root, "xyzpy"), ignore=shutil.ignore_patterns("__pycache__"))
+        if os.path.isdir(os.path.join(common.REPO, "tests")):
+            shutil.copytree(os.path.join(common.REPO, "tests"), os.path.join(root, "tests"), ignore=shutil.ignore_patterns("__pycache__"))
+        p = subprocess.run(["patch", "-p1", "-s", "-i", patchfile], cwd=root, capture_output=True, text=True)
+        if p.returncode != 0:
+            return None, "patch does not apply: " + (p.stdout + p.stderr)[-200:]
+        env = dict(os.environ, VX_REPO=root)
+        p = subprocess.run([os.path.join(common.VERIF, "check"), prop, "--tier", tier], env=env, capture_output=True, text=True)
+        caught = p.returncode == 1 and ("VIOLATION property=%s" % prop) in p.stdout
+        return caught, p.stdout[-400:]
+    finally:
+        shutil.rmtree(root, ignore_errors=True)
+
+
 def main(argv=None):
     argv = argv if argv is not None else sys.argv[1:]
     sel = os.environ.get("VX_MUTANTS")
@@ -83,7 +114,17 @@ def main(argv=None):
         if not caught:
             missed += 1
             print(tail)
-    print("mutants: %d, missed: %d" % (len(todo), missed))
+    nseed = 0
+    for sid, prop, pf in seeded():
+        if (argv and sid not in argv) or (sel and prop not in sel.split(",")):
+            continue
+        nseed += 1
+        caught, tail = run_seeded(sid, prop, pf)
+        print("seeded %-27s %s %s" % (sid, prop, "CAUGHT" if caught else ("MISSED" if caught is False else "N/A")))
+        if not caught:
+            missed += 1
+            print(tail)
+    print("mutants: %d canned + %d seeded, missed: %d" % (len(todo), nseed, missed))
     return 1 if missed else 0
 
 
